@@ -182,6 +182,26 @@ func (s chunkfault) largeValues(c *Ctx, r *prng.Rand, text bool) {
 			c.DistinctU(hashRead(data[:64], oc.SrcHash, prog))
 			s.checkRead(c, rc, oc, baseKey, "R1")
 		}
+		// the stream torn at a few points, from a plain and from a seekable source, in large pieces and whole: the outcome
+		// (values and final error) must be the same as for whole delivery of the same torn bytes
+		for j := 0; j < 6; j++ {
+			cut := data[:1+r.Intn(len(data)-1)]
+			tb := drive.RunRead(drive.ReadCase{Data: cut, Plan: planWhole(), Prog: prog})
+			if tb.Panic != "" || tb.Spin {
+				continue
+			}
+			for _, rc := range []drive.ReadCase{
+				{Data: cut, Plan: planWhole(), Prog: prog, Seekable: true},
+				{Data: cut, Plan: sim.ReadPlan{Name: "large-chunks", Tail: 4096}, Prog: prog},
+				{Data: cut, Plan: sim.ReadPlan{Name: "large-chunks", Tail: 1000, EOFWithLast: true}, Prog: prog},
+			} {
+				oc := drive.RunRead(rc)
+				c.Steps += int64(oc.Reads)
+				c.Count("r1.runs", 1)
+				c.Count("r1.torn-large-value-runs", 1)
+				s.checkRead(c, rc, oc, tb.Key(), "R1")
+			}
+		}
 		// read failures at sampled offsets
 		offs := []int{0, 3, 4, 5, 4095, 4096, 4097, 8191, 8192, 65535, 65536, 65537, len(data) - 4097, len(data) - 4096, len(data) - 2, len(data) - 1, len(data)}
 		for j := 0; j < 8; j++ {
@@ -314,6 +334,15 @@ func (s chunkfault) readSide(c *Ctx, r *prng.Rand, data []byte, marks []render.M
 	}
 	for j := 0; j < 4; j++ {
 		plans = append(plans, planBiased(r, data, marks))
+	}
+	{
+		// the same bytes from a source that can also seek (bytes.Reader, *os.File): one more way of "all at once"
+		rc := drive.ReadCase{Data: data, Plan: planWhole(), Prog: prog, Seekable: true}
+		oc := drive.RunRead(rc)
+		c.Steps += int64(oc.Reads)
+		c.Count("r1.runs", 1)
+		c.Count("r1.seekable-source-runs", 1)
+		s.checkRead(c, rc, oc, baseKey, "R1")
 	}
 	for _, p := range plans {
 		rc := drive.ReadCase{Data: data, Plan: p, Prog: prog}
